@@ -91,18 +91,19 @@ type k11Proxy struct {
 	target string
 	idx    int
 
-	mu       sync.Mutex
-	conns    []net.Conn
-	replConn net.Conn // leader side of the replication connection
-	stalled  bool
-	held     [][]byte
-	dead     bool // connection cut by the harness; no reconnect
-	closed   bool
-	positive map[string]int // key/lockid -> positive ack frames handed to the leader
-	negative map[string]int
-	seen     int
-	log      []string
-	onAck    func() // called (without the mutex) after a frame was handed over
+	mu        sync.Mutex
+	conns     []net.Conn
+	replConn  net.Conn // leader side of the replication connection
+	stalled   bool
+	held      [][]byte
+	dead      bool // connection cut by the harness; no reconnect
+	closed    bool
+	positive  map[string]int // key/lockid -> positive ack frames handed to the leader
+	negative  map[string]int
+	seen      int
+	forwarded int // ack frames handed to the leader on the current (only) connection
+	log       []string
+	onAck     func() // called (without the mutex) after a frame was handed over
 }
 
 func k11NewProxy(idx int, target string) (*k11Proxy, error) {
@@ -227,6 +228,7 @@ func (p *k11Proxy) forwardLocked(s net.Conn, frame []byte) bool {
 		p.negative[id]++
 	}
 	p.logf("ack for %s result=%d -> leader", id, frame[19])
+	p.forwarded++
 	_, err := s.Write(frame)
 	return err == nil
 }
@@ -331,6 +333,9 @@ func k11Needed(mode, n int) int {
 
 // stuck: can an ack-required request registered now be completed without the harness unstalling?
 func (cl *k11Cluster) stuck() bool {
+	if cl.e != nil && cl.e.parked {
+		return true // the leader's own write is outstanding: no acknowledgement may complete
+	}
 	free := 0
 	for _, p := range cl.prox {
 		p.mu.Lock()
@@ -418,6 +423,7 @@ func k11NewCluster(c *k11Case) (*k11Cluster, string) {
 	d := e.db
 	d.currentTime, d.checkTimeoutTime, d.checkExpriedTime = e.now, e.now, e.now
 	e.ackGate = cl.gate
+	e.majorityTwo = c.AckMode == 1 && c.Followers >= 2
 	e.stuck = cl.stuck
 	e.anyNegative = func(r *k11Req) bool {
 		id := fmt.Sprintf("%d/%x", r.Op.Key, r.LockId)
@@ -478,7 +484,11 @@ func (cl *k11Cluster) settle() (bool, string) {
 	e := cl.e
 	deadline := time.Now().Add(k11Watch)
 	for {
-		if !vAofIdle(e.inst.slock.aof) {
+		if e.parked {
+			if !k11QueuesIdle(e.inst.slock.aof) {
+				return false, "leader persistence queue did not drain (flush parked)"
+			}
+		} else if !vAofIdle(e.inst.slock.aof) {
 			return false, "leader persistence queue did not drain"
 		}
 		e.classify()
@@ -488,19 +498,76 @@ func (cl *k11Cluster) settle() (bool, string) {
 		if len(pend) == 0 {
 			return true, ""
 		}
+		if e.parked && !cl.demoted {
+			// make "nothing completes while the leader has not written" an observation, not luck: every follower
+			// that is free to answer has answered each pending request and the leader has digested those frames
+			if inc := cl.waitFollowerAcksDigested(); inc != "" {
+				return false, inc
+			}
+			e.classify()
+			return false, ""
+		}
 		if cl.stuck() || cl.demoted || cl.clockOnly {
 			// pending requests legitimately wait for the harness
-			held := 0
-			for _, p := range cl.prox {
-				p.mu.Lock()
-				held += len(p.held)
-				p.mu.Unlock()
-			}
-			_ = held
 			return false, ""
 		}
 		if time.Now().After(deadline) {
 			return false, fmt.Sprintf("ack-required request #%d unanswered after the watchdog although no follower is stalled\n%s", pend[0].Idx, cl.proxyLogs())
+		}
+		time.Sleep(200 * time.Microsecond)
+	}
+}
+
+// waitFollowerAcksDigested (flush parked): every connected, unstalled follower has acknowledged every request
+// that is pending on the leader, the proxies have handed those frames over, the leader's replication servers have
+// read them all and its persistence queues have processed them.
+func (cl *k11Cluster) waitFollowerAcksDigested() string {
+	e := cl.e
+	deadline := time.Now().Add(k11Watch)
+	for {
+		e.classify()
+		e.mu.Lock()
+		var ids []string
+		for _, r := range e.pendingUnanswered() {
+			if r.State == k11Pending {
+				ids = append(ids, fmt.Sprintf("%d/%x", r.Op.Key, r.LockId))
+			}
+		}
+		e.mu.Unlock()
+		missing := ""
+		fwd := uint64(0)
+		for i, p := range cl.prox {
+			p.mu.Lock()
+			if !p.dead {
+				fwd += uint64(p.forwarded)
+				if !p.stalled {
+					for _, id := range ids {
+						if p.positive[id]+p.negative[id] == 0 {
+							missing = fmt.Sprintf("follower %d has not acknowledged %s", i, id)
+						}
+					}
+				}
+			}
+			p.mu.Unlock()
+		}
+		if missing == "" {
+			mgr := cl.leader.inst.slock.replicationManager
+			mgr.glock.Lock()
+			got := uint64(0)
+			for _, ch := range mgr.serverChannels {
+				got += ch.state.ackCount
+			}
+			mgr.glock.Unlock()
+			if got >= fwd {
+				if !k11QueuesIdle(e.inst.slock.aof) {
+					return "leader persistence queue did not drain (flush parked)"
+				}
+				return ""
+			}
+			missing = fmt.Sprintf("leader has read %d of %d acknowledgement frames", got, fwd)
+		}
+		if time.Now().After(deadline) {
+			return missing + " within the watchdog while the leader's flush was parked\n" + cl.proxyLogs()
 		}
 		time.Sleep(200 * time.Microsecond)
 	}
@@ -618,10 +685,17 @@ func (cl *k11Cluster) step(op k11Op) string {
 			}
 			e.mu.Unlock()
 		}
+	case "parkflush":
+		if !cl.demoted {
+			e.park()
+		}
+	case "unparkflush":
+		e.unpark()
 	case "demote":
 		if cl.demoted {
 			return ""
 		}
+		e.unpark() // demotion waits for the writers (WaitFlushAofChannel)
 		e.mu.Lock()
 		np := len(e.pendingUnanswered())
 		e.info.demotions++
@@ -782,7 +856,7 @@ func (cl *k11Cluster) waitDigested(ids []string, negative bool) string {
 					got += p.positive[id]
 					p.mu.Unlock()
 				}
-				if got < k11Needed(cl.c.AckMode, cl.alive()) {
+				if got < k11Needed(cl.c.AckMode, cl.alive()) || e.parked {
 					break // cannot complete yet
 				}
 			}
@@ -871,6 +945,7 @@ func k11RunCluster(c *k11Case, replay bool) (out k11Out) {
 		e.knownSuffix = e.known
 	}
 	finish := func() {
+		e.unpark()
 		e.mu.Lock()
 		out.viols, out.info = e.viols, e.info
 		out.history = e.history() + "\n" + cl.proxyLogs()
@@ -902,6 +977,7 @@ func k11RunCluster(c *k11Case, replay bool) (out k11Out) {
 			return
 		}
 	}
+	e.unpark()
 	// final: release every stalled proxy, then let pending requests that lost an ack run into their timeout
 	for i := range cl.prox {
 		if inc = cl.step(k11Op{K: "unstall", F: i, Mode: "pass"}); inc != "" {
